@@ -146,3 +146,59 @@ func insideLoop(root ast.Node, target ast.Node) bool {
 	rec(root, false)
 	return in
 }
+
+// R-LOOKUP-VIA-INDEX: keyed lookups (ByName, ByNumber, ByJSONName, ByTextName,
+// ByPath, ByDescriptor, Has) of the list types answer only from the lazily
+// built index (`p.lazyInit().byX`, `.has`, `.sorted`). A lookup that also
+// reads the backing list directly can disagree with the index (which is built
+// first-wins / sorted), so that By*/Has contradict Get(i).
+func (c *Ctx) ruleLookupViaIndex(rule string, pkg string, floor int) {
+	R, P := c.R, c.P
+	R.Rule(rule, "every By*/Has lookup method of a descriptor list type that has a lazyInit index reads elements of the list only through p.lazyInit() (no direct element access to the receiver's List field; len() is allowed): one source of truth for keyed lookups", floor)
+	hasLazy := map[string]bool{}
+	for _, fi := range P.FuncsIn(pkg) {
+		if fi.Obj.Name() == "lazyInit" {
+			if sig, ok := fi.Obj.Type().(*types.Signature); ok && sig.Recv() != nil {
+				hasLazy[namedTypeName(sig.Recv().Type())] = true
+			}
+		}
+	}
+	for _, fi := range P.FuncsIn(pkg) {
+		name := fi.Obj.Name()
+		if !(strings.HasPrefix(name, "By") || name == "Has") || fi.Decl.Body == nil || fi.Decl.Recv == nil {
+			continue
+		}
+		sig := fi.Obj.Type().(*types.Signature)
+		if sig.Recv() == nil || !hasLazy[namedTypeName(sig.Recv().Type())] {
+			continue
+		}
+		recv := sig.Recv()
+		info := fi.Info()
+		var direct ast.Node
+		walk(fi.Decl.Body, func(n ast.Node) bool {
+			// len(p.List) reads no element and cannot contradict the index
+			if call, ok := n.(*ast.CallExpr); ok {
+				if id, ok := call.Fun.(*ast.Ident); ok && id.Name == "len" && info.Uses[id] == types.Universe.Lookup("len") {
+					return false
+				}
+			}
+			se, ok := n.(*ast.SelectorExpr)
+			if !ok || direct != nil {
+				return true
+			}
+			if id, ok := unparen(se.X).(*ast.Ident); ok && info.Uses[id] == recv {
+				if v, ok := info.Uses[se.Sel].(*types.Var); ok && v.IsField() {
+					if _, isSlice := v.Type().Underlying().(*types.Slice); isSlice {
+						direct = se
+					}
+				}
+			}
+			return true
+		})
+		if direct != nil {
+			R.Bad(rule, fi.Key, P.Pos(direct), "the lookup reads the backing list `"+exprStr(direct.(ast.Expr))+"` directly instead of answering from the lazyInit index: it can return a different element (or a different membership answer) than the first-wins/sorted index")
+		} else {
+			R.OK(rule, fi.Key, P.Pos(fi.Decl), "answers only from p.lazyInit()")
+		}
+	}
+}
